@@ -408,6 +408,16 @@ func checkC01(c *Ctx) {
 		}
 	}
 	c.runRefCases("expr", progs, inputs, shapes, nil, nil)
+	// (f) a text operand is the text its variable was given: reading it as a number (转换数值, in a
+	// statement before or in an operand of the same expression) does not change what it compares
+	// equal to (hand-written, expected values written down)
+	c.runHand("text-operand", []handCase{
+		{"compared-after-conversion", "令丁 = “5*10^2”\n令数 = 以丁（转换数值）\n输出【丁 为 “5*10^2”，丁 == “5*10^2”，丁 不为 “5*10^2”，数】\n", "list[bool(true),bool(true),bool(false),num(500)]"},
+		{"compared-inside-one-expression", "令丁 = “1*^3”\n输出 丁 为 “1*^3” 且 以丁（转换数值） == 1000 且 丁 为 “1*^3”\n", "bool(true)"},
+		{"failed-conversion-keeps-the-text", "令丁 = “1*^x”\n如何试？\n\t输入文\n\t输出 以文（转换数值）\n\n\t拦截异常：\n\t\t输出 -1\n令果 = （试：丁）\n输出【果，丁 为 “1*^x”】\n", "list[num(-1),bool(true)]"},
+		{"literal-converted-twice", "如何读？\n\t输出 “2*10^3”\n输出【以（读）（转换数值），以（读）（转换数值），（读） 为 “2*10^3”】\n", "list[num(2000),num(2000),bool(true)]"},
+		{"length-after-conversion", "令丁 = “12*10^3”\n令数 = 以丁（转换数值）\n输出【丁之长度，数】\n", "list[num(7),num(12000)]"},
+	})
 }
 
 func c01Leaf(r *rand.Rand) zr.Expr {
